@@ -547,14 +547,14 @@ class RatioOfMeans(  # noqa: D101
         if self.alternative == "greater":
             q = self.confidence_level
             effect_size_ci_lower = effect_size + scale*distr.isf(q)
-            means_ratio_ci_lower = means_ratio * math.exp(log_scale * log_distr.isf(q))
+            means_ratio_ci_lower = means_ratio * _exp(log_scale * log_distr.isf(q))
             effect_size_ci_upper = means_ratio_ci_upper = float("+inf")
             pvalue = distr.sf(statistic)
         elif self.alternative == "less":
             q = self.confidence_level
             effect_size_ci_lower = means_ratio_ci_lower = float("-inf")
             effect_size_ci_upper = effect_size + scale*distr.ppf(q)
-            means_ratio_ci_upper = means_ratio * math.exp(log_scale * log_distr.ppf(q))
+            means_ratio_ci_upper = means_ratio * _exp(log_scale * log_distr.ppf(q))
             pvalue = distr.cdf(statistic)
         else:  # two-sided
             q = (1 + self.confidence_level) / 2
@@ -562,7 +562,7 @@ class RatioOfMeans(  # noqa: D101
             effect_size_ci_lower = effect_size - half_ci
             effect_size_ci_upper = effect_size + half_ci
 
-            rel_half_ci = math.exp(log_scale * log_distr.ppf(q))
+            rel_half_ci = _exp(log_scale * log_distr.ppf(q))
             means_ratio_ci_lower = means_ratio / rel_half_ci
             means_ratio_ci_upper = means_ratio * rel_half_ci
 
@@ -706,6 +706,13 @@ class RatioOfMeans(  # noqa: D101
                 loc=effect_size / scale)
 
         return scale, null_distr, alt_distr
+
+
+def _exp(x: float) -> float:
+    try:
+        return math.exp(x)
+    except OverflowError:
+        return float("inf")
 
 
 def _find_boundary(
